@@ -575,6 +575,102 @@ func (g *gcase) prefixKeyCase() {
 	}
 }
 
+// fanCase: an inner node with exactly N children at a node-size threshold (4/5, 16/17, 48/49) under a
+// common prefix P; handles on the committed tree (root, Prefix P, Prefix below it, Get of present and
+// absent keys below P); then one txn that crosses the threshold (deleting or inserting children) —
+// the demotion / promotion paths of removeChild and insert must carry the watch channels over.
+func (g *gcase) fanCase() {
+	r := g.r
+	P := make([]byte, r.Intn(3))
+	for i := range P {
+		P[i] = byte(r.Intn(256))
+	}
+	N := hx.Pick(r, []int{2, 3, 4, 5, 6, 16, 17, 18, 48, 49, 50})
+	perm := r.Perm(256)
+	next := perm[:N]
+	spare := perm[N : N+4]
+	child := func(b int) []byte {
+		k := cat(P, []byte{byte(b)})
+		return k
+	}
+	var keys [][]byte
+	tails := map[int][]byte{}
+	for _, b := range next {
+		k := child(b)
+		if r.Chance(20) {
+			tails[b] = []byte{byte(r.Intn(256))}
+			k = cat(k, tails[b])
+		}
+		keys = append(keys, k)
+	}
+	key := func(b int) []byte { return cat(child(b), tails[b]) }
+	if len(P) > 0 && r.Chance(70) { // sibling: P's node is not the root
+		j := append([]byte{}, P...)
+		j[len(j)-1]++
+		keys = append(keys, j)
+	}
+	if r.Chance(25) {
+		keys = append(keys, P) // P itself holds a leaf
+	}
+	g.out.P("begin 0")
+	g.cur = map[string]bool{}
+	for _, k := range keys {
+		g.out.P("ins %s %d", hx.Hex(k), r.Intn(1000))
+		g.cur[string(k)] = true
+	}
+	g.finish(0)
+	for round, rounds := 0, 1+r.Intn(2); round < rounds; round++ {
+		v := g.head
+		g.out.P("rootw v%s %s", v, g.handle())
+		g.out.P("pfx v%s %s %s -", v, hx.Hex(P), g.handle())
+		if len(P) > 0 {
+			g.out.P("pfx v%s %s %s -", v, hx.Hex(P[:len(P)-1]), g.handle())
+		}
+		g.out.P("pfx v%s %s %s -", v, hx.Hex(child(next[0])), g.handle())
+		g.out.P("pfx v%s %s %s -", v, hx.Hex(child(spare[0])), g.handle())
+		g.out.P("get v%s %s %s", v, hx.Hex(key(next[0])), g.handle())
+		g.out.P("get v%s %s %s", v, hx.Hex(key(next[N-1])), g.handle())
+		g.out.P("get v%s %s %s", v, hx.Hex(child(spare[0])), g.handle())
+		g.out.P("get v%s %s %s", v, hx.Hex(cat(child(spare[1]), []byte{7})), g.handle())
+		g.out.P("get v%s %s %s", v, hx.Hex(P), g.handle())
+		g.out.P("chk")
+		g.out.P("begin %s", g.head)
+		g.cur = cloneSet(g.vkeys[g.head])
+		switch x := r.Intn(10); {
+		case x < 5: // delete one or two children (the last ones, the first one, or a random one)
+			for i, n := 0, 1+r.Intn(2); i < n && i < N; i++ {
+				b := next[N-1-i]
+				if r.Chance(30) {
+					b = next[r.Intn(N)]
+				}
+				g.out.P("del %s", hx.Hex(key(b)))
+				delete(g.cur, string(key(b)))
+			}
+		case x < 8: // insert one or two new children
+			for i, n := 0, 1+r.Intn(2); i < n; i++ {
+				k := child(spare[i])
+				g.out.P("ins %s %d %s", hx.Hex(k), r.Intn(1000), g.handle())
+				g.cur[string(k)] = true
+			}
+		default: // delete then re-insert, or the reverse: the node changes kind twice in one txn
+			b := next[r.Intn(N)]
+			g.out.P("del %s", hx.Hex(key(b)))
+			delete(g.cur, string(key(b)))
+			if r.Chance(50) {
+				g.out.P("pfx t %s - -", hx.Hex(P))
+			}
+			g.out.P("ins %s %d", hx.Hex(child(spare[2])), r.Intn(1000))
+			g.cur[string(child(spare[2]))] = true
+			if r.Chance(50) {
+				g.out.P("del %s", hx.Hex(child(spare[2])))
+				delete(g.cur, string(child(spare[2])))
+			}
+		}
+		g.finish(5)
+		g.out.P("pers")
+	}
+}
+
 func (*eng) Gen(r *hx.Rand, n int, tier string, prop string, out *hx.Out) {
 	alphaSizes := []int{2, 3, 6, 20, 70, 256}
 	for c := 0; c < n; c++ {
@@ -607,6 +703,12 @@ func (*eng) Gen(r *hx.Rand, n int, tier string, prop string, out *hx.Out) {
 		ro := 0
 		if cr.Chance(25) {
 			ro = 1
+		}
+		if c%16 == 11 || c%16 == 4 {
+			out.P("#case g%d-fan", c)
+			out.P("new %d", ro)
+			g.fanCase()
+			continue
 		}
 		switch c % 8 {
 		case 5:
